@@ -49,6 +49,8 @@ func (s *jsonStream) next() (any, error) {
 		if err != nil {
 			if err == io.EOF && s.states[len(s.states)-1] != jsonStateTopValue {
 				err = io.ErrUnexpectedEOF
+			} else if err, ok := err.(*json.SyntaxError); ok {
+				err.Offset = s.syntaxErrorOffset()
 			}
 			return nil, err
 		}
@@ -102,6 +104,18 @@ func (s *jsonStream) next() (any, error) {
 			}
 		}
 	}
+}
+
+// Offset of json.SyntaxError returned by Token is not the offset in the input,
+// so scan the invalid token again to locate the invalid character.
+func (s *jsonStream) syntaxErrorOffset() int64 {
+	offset := s.dec.InputOffset() + 1
+	var v any
+	if err, ok := json.NewDecoder(s.dec.Buffered()).
+		Decode(&v).(*json.SyntaxError); ok {
+		offset += err.Offset - 1
+	}
+	return offset
 }
 
 func (s *jsonStream) copyPath() []any {
